@@ -209,6 +209,24 @@ fn gen_log_world(seed: u64, idx: usize) -> LogWorldScenario {
     let t0 = spec.targets[rng.below(spec.targets.len())].path.clone();
     shows.push((vec![t0], vec![], true, rng.chance(1, 2)));
     shows.push((vec![], vec![cmds[rng.below(cmds.len())].clone()], rng.chance(1, 2), true));
+    // one world in ten: `build` is part of a sequence and is also named in --commands, so it runs twice in one
+    // invocation; the second time it writes much less than the first (the archive is written anew)
+    let mut spec = spec;
+    if rng.chance(1, 10) && script.fs_write_stall.is_none() {
+        spec.sequences = vec![("ci".to_string(), cmds.clone())];
+        script.opts = RunOpts { sequences: vec!["ci".into()], commands: vec!["build".into()], ..Default::default() };
+        for b in script.behav.iter_mut().filter(|b| b.command == "build") {
+            b.outs_again = vec![OutStep { fd: 1, hex: hex(format!("build@{} fd1 second time\n", b.target).as_bytes()), pause_ms: 0, close: false }];
+            if b.outs.len() < 2 && b.code == 0 {
+                // make sure the first time is the longer one
+                let mut v = Vec::new();
+                for n in 0..400 {
+                    v.extend_from_slice(format!("build@{} fd1 first time line {} {}\n", b.target, n, rng.next_u64()).as_bytes());
+                }
+                b.outs.push(OutStep { fd: 1, hex: hex(&v), pause_ms: 0, close: false });
+            }
+        }
+    }
     let listener = if rng.chance(1, 4) {
         let both = rng.chance(1, 2);
         Some(crate::props_listen::ListenerCfg { stdout: both || rng.chance(1, 2), stderr: true, targets: vec![], commands: vec![] })
@@ -342,7 +360,13 @@ fn exec_log_world(sc: &LogWorldScenario) -> Outcome {
             written.retain(|k, _| rg.iter().any(|(c, gs)| *c == k.2 && gs.iter().any(|g| g.get(&k.1).map(|r| r.status == "success" || (r.status == "error" && r.code.is_some())).unwrap_or(false))));
         }
     }
-    let stored = match stored_logs(&w, &tr, &sc.spec, &sc.script.opts.commands) {
+    let mut all_cmds: Vec<String> = vec![];
+    for c in crate::runworld::expanded_commands(&sc.spec, &sc.script.opts) {
+        if !all_cmds.contains(&c) {
+            all_cmds.push(c);
+        }
+    }
+    let stored = match stored_logs(&w, &tr, &sc.spec, &all_cmds) {
         Ok(s) => s,
         Err(e) => {
             out.violate("stored_bytes", "unreadable", format!("stored logs unreadable: {}", e));
